@@ -68,7 +68,9 @@ func verifyGlobalWrites() *FuncResult {
 		if fn.Blocks == nil || initOnly[fn] {
 			continue
 		}
-		if why := excluded(fn); why != "" && !strings.HasPrefix(funcName(fn), "initTLVHandlers") {
+		// files that are out of scope for the functional contracts (debug.go) are still scanned: a write to
+		// package-level state there is shared between conversations like any other
+		if why := excluded(fn); why != "" && !strings.HasPrefix(funcName(fn), "initTLVHandlers") && !strings.HasSuffix(prog.Fset.Position(fn.Pos()).Filename, "debug.go") {
 			continue
 		}
 		if strings.HasSuffix(prog.Fset.Position(fn.Pos()).Filename, "_test.go") {
